@@ -156,8 +156,8 @@ Qed.
 (* ---------- 4. statuses are monotone ---------- *)
 Theorem pool_status_monotone s t s' id x : step s t = Some s' -> stat (tasks s) id = Some x ->
   exists y, stat (tasks s') id = Some y /\ srank x <= srank y /\ (srank x = 2 -> y = x).
-Proof.
-  intros Hs Hx. destruct s as [sr ts q p dl pl]. simpl in *.
+Proof using.
+  clear Bpos Wpos. intros Hs Hx. destruct s as [sr ts q p dl pl]. simpl in *.
   destruct t; simpl in Hs.
   - unfold cstep, set_pc in Hs; simpl in Hs.
     destruct p; simpl in *; inv_step; simpl; try (exists x; auto; fail).
@@ -416,10 +416,16 @@ Proof.
       eapply out_task_fail; eauto.
       * symmetry. eapply Od; eauto.
       * intros NF. congruence.
-    all: (* PExit -> PEnd *) intros h0 [E|E]; inversion E; subst; apply Xo; auto.
-  - unfold wstart in Hs; simpl in Hs. inv_step.
+    + (* PExit -> PEnd *) intros h0 [E|E]; inversion E; subst; apply Xo; auto.
+    + intros h0 [E|E]; inversion E; subst; apply Xo; auto.
+    + intros h0 [E|E]; inversion E; subst; apply Xo; auto.
+  - unfold wstart in Hs; simpl in Hs.
+    destruct (started _ && _); [|discriminate].
+    destruct (first_pending ts) as [n|]; [|discriminate]. inversion Hs; subst; clear Hs.
     constructor; simpl in *; rewrite ?upd_length; auto.
-  - unfold wfinish in Hs; simpl in Hs. inv_step.
+  - unfold wfinish in Hs; simpl in Hs.
+    destruct (nth_error ts id) as [t0|]; [|discriminate].
+    destruct (tst t0); try discriminate. inversion Hs; subst; clear Hs.
     constructor; simpl in *; rewrite ?upd_length; auto.
 Qed.
 
